@@ -65,5 +65,6 @@ func VerifC14_Plan(n, k, win, pat, devPat, order int) {
 			verifAssert(got[i] == want[i], "applying the plan yields the network's enabled channels the device can know (members)")
 		}
 	}
+	verifNoGlobalWritesExcept("") // C10: no hidden package-level state is written
 	verifReach("done")
 }
